@@ -130,7 +130,8 @@ class AllocMachine(Interp):
 # -- part (a) -----------------------------------------------------------------------------------------
 def gen_size_case(rng):
     rank = rng.choice([1, 2, 2, 3])
-    el, elsize = rng.choice([("i8", 1), ("i16", 2), ("i32", 4), ("i64", 8), ("f32", 4)])
+    # element types incl. ones that are not a whole number of bytes (stored in ceil(bits / 8) bytes)
+    el, elsize = rng.choice([("i8", 1), ("i16", 2), ("i32", 4), ("i64", 8), ("f32", 4), ("i1", 1), ("i4", 1), ("i12", 2), ("f16", 2), ("f64", 8)])
     shape = [rng.choice([1, 2, 3, 4, 6, 8, 16]) for _ in range(rank)]
     kind = rng.choice(["none", "tsl", "tsl", "tsl_dyn"])
     dyn_dims = []
